@@ -561,7 +561,7 @@ pub fn bulk(ctx: &Ctx) -> Stats {
 /// among ten thousand short reads, 2-8 workers — the worker that holds the long record falls thousands of records
 /// behind the others, which is when bounded reorder buffers, sequence-numbered slots and hand-off queues overflow
 pub fn straggler(ctx: &Ctx) -> Stats {
-    let n = ctx.n(3, 16);
+    let n = ctx.n(5, 20);
     let mut st = Stats::new();
     for idx in 0..n {
         if ctx.expired() {
@@ -571,8 +571,8 @@ pub fn straggler(ctx: &Ctx) -> Stats {
         let mut rng = Rng::keyed(ctx.seed, "c10.straggler", idx);
         let m = rng.usize(6, 10);
         let w = m + rng.usize(4, 10);
-        let nshort = rng.usize(9000, 14000);
-        let long_len = rng.usize(1_500_000, 3_000_000);
+        let nshort = rng.usize(12_000, 18_000);
+        let long_len = rng.usize(3_000_000, 5_000_000);
         let long_at = match idx % 3 {
             0 => 0,
             1 => nshort / 2,
